@@ -167,6 +167,7 @@ func C07(c *Ctx) {
 	c.R.Rule("C07-R8", "E3", "Compile establishes what processing assumes: a compiled spec has no null node and no null branch", 2)
 	c.R.Rule("C07-R9", "E3", "the matcher's recursion consumes the message: a bound variable string is not expanded again", 1)
 	c07Termination(c)
+	c.R.Rule("C07-R11", "E3+E5", "Walk's error transition: exempt only at node error; built from the state the failing step started from", 2)
 	c.R.Rule("C07-R10", "E3+E6", "loading any document yields a specification or an error", 3)
 	c07Loader(c)
 
@@ -303,6 +304,42 @@ func C07(c *Ctx) {
 	}
 	if nop == 0 {
 		c.R.Break("C07-R1: no range over CrewOp.Update found in package sio")
+	}
+	// a machine that cannot be walked (no usable specification) yields no walk: the value half of every
+	// (*core.Walked, error) result of a function of sio that can return nil there
+	nwalk := 0
+	for _, f := range c.P.FuncsIn("sio") {
+		ssau.Instrs(f, func(in ssa.Instruction) {
+			cl, ok := in.(*ssa.Call)
+			if !ok {
+				return
+			}
+			h := cl.Common().StaticCallee()
+			if h == nil || h.Blocks == nil || prog.PkgOf(h) != "sio" || h.Signature.Results().Len() != 2 {
+				return
+			}
+			if !ssau.TypeIs(h.Signature.Results().At(0).Type(), prog.Abs("core"), "Walked") || h.Signature.Results().At(1).Type().String() != "error" {
+				return
+			}
+			canNil := false
+			for _, b := range h.Blocks {
+				if ret, isRet := b.Instrs[len(b.Instrs)-1].(*ssa.Return); isRet && len(ret.Results) == 2 && ssau.IsNilConst(ret.Results[0]) {
+					canNil = true
+				}
+			}
+			if !canNil {
+				return
+			}
+			for _, r := range ssau.Referrers(cl) {
+				if ex, isEx := r.(*ssa.Extract); isEx && ex.Index == 0 {
+					nwalk++
+					srcs = append(srcs, nilc.Source{V: ex, Why: "a machine without a usable specification is not walked", Label: fmt.Sprintf("walk from %s in %s #%d", h.Name(), fname(f), nwalk)})
+				}
+			}
+		})
+	}
+	if nwalk == 0 {
+		c.R.Break("C07-R1: no call in package sio of a function that answers (*core.Walked, error) and can answer nil")
 	}
 	res := nilc.Check(nilc.Config{Prog: c.P, Engine: map[string]bool{"core": true, "match": true, "sio": true}, PairRule: true}, srcs)
 	c.reportNil("C07-R1", res)
@@ -716,6 +753,33 @@ func c07Recover(c *Ctx) {
 		if prog.PkgOf(f) != "interpreters/ecmascript" || onlyWorld(f) {
 			continue
 		}
+		// what recover() hands back in a function that entered the runtime is whatever the runtime panicked
+		// with: taken as an `error` it is the runtime's own exception
+		ssau.Instrs(f, func(in ssa.Instruction) {
+			ta, ok := in.(*ssa.TypeAssert)
+			if !ok {
+				return
+			}
+			cl, isC := ta.X.(*ssa.Call)
+			if !isC {
+				return
+			}
+			if b, isB := cl.Common().Value.(*ssa.Builtin); !isB || b.Name() != "recover" {
+				return
+			}
+			if _, isIface := ta.AssertedType.Underlying().(*types.Interface); !isIface {
+				return // asserted to a concrete type (say *goja.InterruptedError): judged by its type tests
+			}
+			if ta.CommaOk {
+				for _, r := range ssau.Referrers(ta) {
+					if ex, isEx := r.(*ssa.Extract); isEx && ex.Index == 0 {
+						rawErr[ex] = true
+					}
+				}
+			} else {
+				rawErr[ta] = true
+			}
+		})
 		ssau.Instrs(f, func(in ssa.Instruction) {
 			ci, ok := in.(ssa.CallInstruction)
 			if !ok {
@@ -1007,6 +1071,7 @@ func c07Errors(c *Ctx, walk, step *ssa.Function) {
 		return
 	}
 	ok := false
+	exemptBad, staleBad := "", ""
 	var pos ssa.Instruction = stepCall
 	for _, st := range storesTo(walk, "Stride", "To") {
 		// the store must be under err != nil and not under any other condition than NodeName != "error"
@@ -1067,7 +1132,72 @@ func c07Errors(c *Ctx, walk, step *ssa.Function) {
 				pos = st
 			}
 		}
+		// the only exemption is "already at the node error": no other comparison of the state's node decides
+		// whether the error is routed
+		for _, f := range flow.FactsAt(st.Block()) {
+			bo, isB := f.Cond.(*ssa.BinOp)
+			if !isB || (bo.Op != token.EQL && bo.Op != token.NEQ) {
+				continue
+			}
+			x, y := bo.X, bo.Y
+			if _, is := isFieldLoad(y, "core", "State", "NodeName"); is {
+				x, y = y, x
+			}
+			if _, is := isFieldLoad(x, "core", "State", "NodeName"); !is {
+				continue
+			}
+			if sv, isStr := ssau.ConstString(y); !isStr || sv != "error" {
+				exemptBad = c.pos(bo)
+			}
+		}
+		// the error state is built from the state this step started from (the loop-carried one), not from the
+		// state the walk was given
+		want := leafSetKey(deepDefs(stepCall.Common().Args[2], escope))
+		for _, leaf := range deepDefs(st.Val, escope) {
+			al, isAl := leaf.(*ssa.Alloc)
+			if !isAl {
+				continue
+			}
+			for _, r := range ssau.Referrers(al) {
+				fa, isFA := r.(*ssa.FieldAddr)
+				if !isFA || !ssau.IsField(fa, prog.Abs("core"), "State", "Bs") {
+					continue
+				}
+				for _, r2 := range ssau.Referrers(fa) {
+					s2, isS := r2.(*ssa.Store)
+					if !isS {
+						continue
+					}
+					for _, bv := range deepDefs(s2.Val, escope) {
+						ex, isEx := bv.(*ssa.Extract)
+						if !isEx {
+							continue
+						}
+						cl, isC := ex.Tuple.(*ssa.Call)
+						if !isC || !strings.HasSuffix(ssau.CalleeName(cl), "Extendm") {
+							continue
+						}
+						// the receiver of Extendm: Copy() of some state's Bs
+						for _, rv := range deepDefs(cl.Common().Args[0], escope) {
+							cp, isCp := rv.(*ssa.Call)
+							if !isCp || cp.Common().StaticCallee() == nil || cp.Common().StaticCallee().Name() != "Copy" || len(cp.Common().Args) != 1 {
+								continue
+							}
+							for _, src := range deepDefs(cp.Common().Args[0], escope) {
+								if base, is := isFieldLoad(src, "core", "State", "Bs"); is {
+									if leafSetKey(deepDefs(base, escope)) != want {
+										staleBad = c.pos(cp)
+									}
+								}
+							}
+						}
+					}
+				}
+			}
+		}
 	}
+	c.R.Check(exemptBad == "", "C07-R11", "Walk: only a machine already at node error is exempt from the error transition", c.pos(pos), "the error transition is skipped only under NodeName == \"error\"", "whether a Step error is routed to the error node also depends on another comparison of the state's node ("+exemptBad+"): an error at that node is swallowed — no returned error, no transition, the message is dropped")
+	c.R.Check(staleBad == "", "C07-R11", "Walk: the error state carries the bindings of the state the failing step started from", c.pos(pos), "the bindings copied into the error state are those of the state handed to Step", "the error state is built from another state than the one the failing step started from ("+staleBad+"): bindings made earlier in the same walk are lost when a later step fails")
 	c.R.Check(ok, "C07-R5", "Walk: a Step error becomes the error-node transition", c.pos(pos), "under err != nil, Stride.To = {error, bindings with error/lastNode/lastBindings}", "a Step error is not converted into a transition to the error node carrying error, lastNode and lastBindings")
 }
 
